@@ -348,6 +348,8 @@ pub struct Ctx {
     extra: Mutex<BTreeMap<String, Value>>,
     rule: Mutex<String>,
     start: Instant,
+    /// cases the machinery could not run (reported as inconclusive, exit 2, never as a violation)
+    harness_errors: AtomicU64,
     /// restrict to sub-checks whose name contains this (debugging aid: VERIF_ONLY)
     only: Option<String>,
 }
@@ -368,6 +370,7 @@ impl Ctx {
             extra: Mutex::new(BTreeMap::new()),
             rule: Mutex::new(String::new()),
             start: Instant::now(),
+            harness_errors: AtomicU64::new(0),
             only: std::env::var("VERIF_ONLY").ok().filter(|s| !s.is_empty()),
         }
     }
@@ -450,6 +453,12 @@ impl Ctx {
     }
 
     fn record_violation<C: Serialize>(&self, sub: &Sub, case: &C, fl: Fail) {
+        if fl.key.starts_with("harness-cold-start-child-error") {
+            // the machinery itself failed (could not start or understand a child process): that says nothing about the property
+            println!("INCONCLUSIVE property={} sub={} the check could not run a case: {}", self.prop, sub.name, truncate_str(&fl.detail, 600));
+            self.harness_errors.fetch_add(1, Ordering::Relaxed);
+            return;
+        }
         let mut v = self.violations.lock().unwrap();
         if v.iter().any(|x| x.sub == sub.name && x.key == fl.key) {
             sub.extra_violations.fetch_add(1, Ordering::Relaxed);
@@ -799,10 +808,12 @@ impl Ctx {
             viol.len(),
             self.start.elapsed().as_secs_f64()
         );
-        if viol.is_empty() {
-            0
-        } else {
+        if !viol.is_empty() {
             1
+        } else if self.harness_errors.load(Ordering::Relaxed) > 0 {
+            2
+        } else {
+            0
         }
     }
 }
@@ -841,9 +852,14 @@ fn cold_child<C: Serialize>(prop: &str, sub: &str, case: &C) -> CaseResult {
     if let Err(e) = std::fs::write(&path, doc.to_string()) {
         return harness_err(format!("cannot write {}: {}", path.display(), e));
     }
-    let exe = match std::env::current_exe() {
-        Ok(e) => e,
-        Err(e) => return harness_err(format!("current_exe: {}", e)),
+    // /proc/self/exe names the running image itself, so the child is this very build even if the file on disk was replaced meanwhile
+    let exe = if std::path::Path::new("/proc/self/exe").exists() {
+        std::path::PathBuf::from("/proc/self/exe")
+    } else {
+        match std::env::current_exe() {
+            Ok(e) => e,
+            Err(e) => return harness_err(format!("current_exe: {}", e)),
+        }
     };
     let out = std::process::Command::new(exe).arg("replay").arg(&path).env("VERIF_COLD_CHILD", "1").output();
     let _ = std::fs::remove_file(&path);
